@@ -34,7 +34,7 @@ def opSign (a : List String) : String :=
   match a with
   | d :: rest =>
     let (kt, after) := splitBar rest
-    match unhex d, parseKey kt with
+    match (unhexOpt d).map (·.getD []), parseKey kt with     -- `~`: the empty message as a nil slice
     | some data, some (some k) =>
       (match newSigner (some k) with
        | .ok s =>
@@ -57,7 +57,7 @@ def opVerify (a : List String) : String :=
   match a with
   | d :: sg :: rest =>
     let (kt, after) := splitBar rest
-    match unhex d, unhex sg, parseKey kt with
+    match (unhexOpt d).map (·.getD []), unhex sg, parseKey kt with
     | some data, some sig, some (some k) =>
       (match newVerifier (some k) with
        | .ok v =>
